@@ -37,7 +37,6 @@ import (
 	"github.com/bronlabs/bron-crypto/pkg/base/curves/k256"
 	"github.com/bronlabs/bron-crypto/pkg/base/datastructures/hashset"
 	"github.com/bronlabs/bron-crypto/pkg/base/serde"
-	"github.com/bronlabs/bron-crypto/pkg/commitments/hashcom"
 	rsess "github.com/bronlabs/bron-crypto/pkg/mpc/session"
 	"github.com/bronlabs/bron-crypto/pkg/mpc/sharing"
 	"github.com/bronlabs/bron-crypto/pkg/mpc/zero/przs"
@@ -95,9 +94,8 @@ type kase struct {
 	tam    *tamper
 	subs   [][][]sharing.ID // paths of nested sub-quorums
 
-	res   *dsess.Result
-	table []string
-	impl  map[string]string
+	res  *dsess.Result
+	impl map[string]string
 
 	tapeLayoutDiffers bool
 	noPred            bool // invalid configuration (constructor refuses): compared with the model only
@@ -449,11 +447,7 @@ func inboxText[M any](in map[sharing.ID]M, f func(m M) string) string {
 
 func (k *kase) line() string {
 	var sb strings.Builder
-	tbl := "-"
-	if len(k.table) > 0 {
-		tbl = strings.Join(k.table, ";")
-	}
-	fmt.Fprintf(&sb, "S %s %s %s %s", k.id, tbl, vh.Hex(extractLabel), subsText(k.subs))
+	fmt.Fprintf(&sb, "S %s - %s %s", k.id, vh.Hex(extractLabel), subsText(k.subs))
 	r := k.res
 	for idx, id := range r.Quorum {
 		// every party is told the quorum in its own (rotated) order: the constructor sorts
@@ -482,31 +476,92 @@ func (k *kase) line() string {
 // modelTape is the randomness handed to the model for party id.  The model reads its tape
 // in the order the code reads its prng today (key, common contribution, witness; then per
 // peer in ascending order contribution, witness).  C10 does not depend on that order, so
-// the tape is rebuilt from the values the party actually used (they all appear in its own
-// messages) in the model's order; a party that stopped before sending everything keeps its
-// recorded tape.  Whether the recorded tape has exactly this layout is noted, not compared.
+// the tape is rebuilt, in the model's order, from the values the party actually used: they
+// appear in its own messages (key in round 1, common opening in round 2, pairwise openings
+// in round 3); for a party that stopped before opening, the values are located among the
+// 32-byte pieces it drew in that round as the pair that opens the commitment it sent.  If
+// that fails the recorded tape is used as it is.  Whether the recorded tape has exactly the
+// model's layout is noted, not compared.
 func (k *kase) modelTape(id sharing.ID) []byte {
 	r := k.res
-	tape := r.Trace.Tapes[id].Bytes
+	t := r.Trace.Tapes[id]
+	tape := t.Bytes
 	m1, ok1 := r.R1B[id]
-	m2, ok2 := r.R2B[id]
-	if !ok1 || !ok2 || m1.Ck == nil {
+	if !ok1 || m1.Ck == nil {
 		return tape
+	}
+	pieces := func(tag string) [][]byte {
+		var out [][]byte
+		for i, rd := range t.Reads {
+			if rd.Tag != tag {
+				continue
+			}
+			b := t.Slice(i)
+			for len(b) >= 32 {
+				out = append(out, b[:32])
+				b = b[32:]
+			}
+		}
+		return out
+	}
+	// find (x, y) among ps with BLAKE2b-256_key(x || y) == want
+	opening := func(ps [][]byte, key, want []byte) (x, y []byte, ok bool) {
+		for i := range ps {
+			for j := range ps {
+				if i == j {
+					continue
+				}
+				h, err := blake2b.New256(key)
+				if err != nil {
+					return nil, nil, false
+				}
+				h.Write(ps[i])
+				h.Write(ps[j])
+				if bytes.Equal(h.Sum(nil), want) {
+					return ps[i], ps[j], true
+				}
+			}
+		}
+		return nil, nil, false
 	}
 	var rec []byte
 	rec = append(rec, m1.Ck[:]...)
-	rec = append(rec, m2.CommonContribution[:]...)
-	rec = append(rec, m2.CommonContributionWitness[:]...)
+	if m2, ok := r.R2B[id]; ok {
+		rec = append(rec, m2.CommonContribution[:]...)
+		rec = append(rec, m2.CommonContributionWitness[:]...)
+	} else {
+		x, y, ok := opening(pieces("r1"), []byte("BRON_CRYPTO_NOTHING_UP_MY_SLEEVE"), m1.CommonCommitment[:])
+		if !ok {
+			return tape
+		}
+		rec = append(append(rec, x...), y...)
+	}
+	var r2 [][]byte
 	for _, peer := range r.Quorum {
 		if peer == id {
 			continue
 		}
-		m3, ok := r.R3U[id][peer]
+		if m3, ok := r.R3U[id][peer]; ok {
+			rec = append(rec, m3.PairwiseContribution[:]...)
+			rec = append(rec, m3.PairwiseContributionWitness[:]...)
+			continue
+		}
+		m2u, okU := r.R2U[id][peer]
+		in1, okK := r.InR1B[id][peer]
+		if !okU {
+			break // stopped before round 2 produced anything: nothing more was drawn that matters
+		}
+		if !okK || in1.Ck == nil {
+			return tape
+		}
+		if r2 == nil {
+			r2 = pieces("r2")
+		}
+		x, y, ok := opening(r2, in1.Ck[:], m2u.PairwiseContributionCommitment[:])
 		if !ok {
 			return tape
 		}
-		rec = append(rec, m3.PairwiseContribution[:]...)
-		rec = append(rec, m3.PairwiseContributionWitness[:]...)
+		rec = append(append(rec, x...), y...)
 	}
 	if !bytes.Equal(rec, tape) {
 		k.tapeLayoutDiffers = true
@@ -545,7 +600,7 @@ func answer(q string) (string, error) {
 
 // solve runs the model driver over the lines. The driver asks for every hash it needs
 // ("Q <query>" on its stdout) and is answered on its stdin; "R ..." ends a case.
-func solve(driver string, n int, line func(i int) string, _ func(i int, entries []string)) ([]string, error) {
+func solve(driver string, n int, line func(i int) string) ([]string, error) {
 	cmd := exec.Command(driver)
 	stdin, err := cmd.StdinPipe()
 	if err != nil {
@@ -1026,7 +1081,6 @@ type ncCase struct {
 	quorum   []sharing.ID
 	common   []byte
 	pairwise map[sharing.ID][]byte
-	table    []string
 	impl     string
 }
 
@@ -1081,11 +1135,7 @@ func (c *ncCase) run() {
 }
 
 func (c *ncCase) line() string {
-	tbl := "-"
-	if len(c.table) > 0 {
-		tbl = strings.Join(c.table, ";")
-	}
-	return fmt.Sprintf("N %s %s %s %s", c.id, tbl, vh.Hex(extractLabel), c.text())
+	return fmt.Sprintf("N %s - %s %s", c.id, vh.Hex(extractLabel), c.text())
 }
 
 // ---------------------------------------------------------------- generation
@@ -1390,8 +1440,7 @@ func main() {
 	lap("impl")
 	// the model
 	outs, err := solve(a.Driver, len(cases),
-		func(i int) string { return cases[i].line() },
-		func(i int, e []string) { cases[i].table = append(cases[i].table, e...) })
+		func(i int) string { return cases[i].line() })
 	if err != nil {
 		res.Mismatch(vh.Mismatch{ID: "driver", Kind: "corr", Key: "model-driver-failed", Detail: err.Error(), Case: "-", What: "the extracted model could not be evaluated"})
 		res.Write(a.Out)
@@ -1455,6 +1504,7 @@ func main() {
 			continue
 		}
 		sets := []map[sharing.ID]*rsess.Context{k.res.Ctx}
+		setPaths := [][][]sharing.ID{nil}
 		for pi, path := range k.subs {
 			if pi%7 != 0 {
 				continue
@@ -1469,6 +1519,7 @@ func main() {
 			}
 			if len(m) == len(path[len(path)-1]) && len(m) >= 2 {
 				sets = append(sets, m)
+				setPaths = append(setPaths, path)
 			}
 		}
 		for si, set := range sets {
@@ -1479,7 +1530,12 @@ func main() {
 				res.Mismatch(vh.Mismatch{ID: id, Kind: "prop", Key: "zero-share-sample-fails", Detail: fmt.Sprint(p, e), Case: k.text(), PropFail: true, What: "przs.SampleZeroShare over the k256 scalar field"})
 				continue
 			}
-			zl, zi, zt = append(zl, l), append(zi, im), append(zt, k.text())
+			sk := *k
+			sk.subs = nil
+			if setPaths[si] != nil {
+				sk.subs = [][][]sharing.ID{setPaths[si]}
+			}
+			zl, zi, zt = append(zl, l), append(zi, im), append(zt, sk.text())
 		}
 	}
 	if len(zl) > 0 {
@@ -1545,7 +1601,7 @@ func main() {
 			c.run()
 			ncs = append(ncs, c)
 		}
-		nout, err := solve(a.Driver, len(ncs), func(i int) string { return ncs[i].line() }, func(i int, e []string) { ncs[i].table = append(ncs[i].table, e...) })
+		nout, err := solve(a.Driver, len(ncs), func(i int) string { return ncs[i].line() })
 		if err != nil {
 			res.Mismatch(vh.Mismatch{ID: "driver", Kind: "corr", Key: "model-driver-failed", Detail: err.Error(), Case: "-", What: "the extracted model could not be evaluated (NewContext)"})
 		} else {
@@ -1571,7 +1627,6 @@ func main() {
 	lap("newctx")
 	res.Note("hash oracle: blake2b-256 keyed, SHA3-512 and cSHAKE256 from Go's x/crypto and crypto/sha3, applied to the model's byte strings")
 	res.Write(a.Out)
-	_ = hashcom.KeySize
 }
 
 func propNote(k, d string) string {
